@@ -38,7 +38,7 @@ pub unsafe fn realloc_is_out_of_bound(_ptr: std::ptr::NonNull<u8>, _layout: std:
    panic!("capacity of the table model exceeded (a Vec grew beyond its allocated capacity)")
 }
 
-/// Heap blocks come in four constant sizes.  A request of symbolic size (the first `push` on an
+/// Heap blocks come in four constant sizes (8, 32, 128, 512 bytes).  A request of symbolic size (the first `push` on an
 /// empty `Vec` computes its capacity from a field CBMC does not know to be constant) would
 /// otherwise create an object of symbolic size, which CBMC handles with its array theory at a
 /// cost quadratic in the number of accesses (measured: two `UnionFind` operations exhaust
@@ -56,6 +56,9 @@ pub unsafe fn alloc_size_classes(layout: std::alloc::Layout) -> *mut u8 {
    } else if size <= 512 {
       alloc_zeroed(Layout::from_size_align_unchecked(512, align))
    } else {
+      // measured: a fifth class (2048 bytes, needed by the trrel_uf provider's `Rc<TrRelUnionFind>`)
+      // pushes `c18::quick::union_find_one_union` over the 14 GB memory cap, and the C12 harness
+      // still has no verdict after 600 s with it
       panic!("capacity of the table model exceeded (heap block larger than 512 bytes requested)")
    }
 }
